@@ -418,6 +418,7 @@ func checkC08(w *World, r *Report) {
 
 	checkShortCircuit(w, r)
 	checkNameShortcut(w, r)
+	checkPrecedenceDescent(w, r)
 }
 
 func keysOf(m map[int64]bool) []int64 {
